@@ -121,6 +121,32 @@ def cases(shard, rnd):
                     yield {'t': 'name', 'method': m, 'arg': a,
                            'v': rnd.choice('aZ9-_.:@#,/ ') * n,
                            'phase': rnd.choice(['construct', 'mutate'])}
+        # RELATIONS between the names of one method: the same string in two
+        # name arguments (legal for the one, too long / wrong for the other),
+        # one a prefix or case variant of the other - each constraint is
+        # decided for its own argument whatever the neighbours hold
+        by_method = {}
+        for m, a, kind in NAME_ARGS:
+            by_method.setdefault(m, []).append((a, kind))
+        for m, args in sorted(by_method.items()):
+            if len(args) < 2:
+                continue
+            spec = refspec.BY_NAME[m]
+            strs = ['q' * n for n in (0, 1, 126, 127, 128, 129, 200, 255, 256,
+                                      257)] + ['amq.topic', 'a b', 'a*', 'é',
+                                               'x' * 127 + '!', 'Q' * 128]
+            strs += [x for x in mp.novel_strs if len(x) <= 300][:20]
+            for s_ in strs:
+                for (a1, _k1) in args:
+                    for (a2, _k2) in args:
+                        if a1 >= a2:
+                            continue
+                        for v1, v2 in ((s_, s_), (s_, s_ + 'x'),
+                                       (s_, s_.upper()), (s_[:100], s_)):
+                            others = gf.assignment(rnd, spec)
+                            others[a1], others[a2] = v1, v2
+                            yield {'t': 'full', 'method': m, 'arg': a1,
+                                   'v': v1, 'vals': others}
     elif w == 'fixed':
         from ..gen import magic
         mp = magic.pool()
